@@ -280,7 +280,7 @@ def run(db, cx):
             raise AnalysisBroken(msg)
         cx.notes.append(msg)
         print("note: " + msg)
-    cx.floor("function instantiations interpreted from their AST", len(m.used), 40)
+    cx.floor("function instantiations interpreted from their AST", len(m.used), 45)
     cx.count("max interpreter steps per run", dict(b.max_steps))
     cx.sample({"interpreted": sorted(m.used)})
 
@@ -300,7 +300,7 @@ def structural(db, cx, m):
         seen += 1
         cx.ob("C18.1-comparison-only", c.inst, True, "elements only reach comp / pred / moves",
               short(c.loc))
-    cx.floor("functions checked comparison-only", seen, 40)
+    cx.floor("functions checked comparison-only", seen, 45)
 
 
 def check_sort(cx, b, N):
